@@ -1079,4 +1079,193 @@ theorem face_in_thinned (L : Lat) (keep : Nat → Bool) (hL : L.noSelfLoop = tru
 
 end FaceInOutput
 
+section RemoveVertices
+open Lat AngOrder Function
+/-! ### renumbering the vertices by any injective map that carries the positions along -/
+
+section Renumber
+variable (M M' : Lat) (ν : Nat → Nat) (K : Nat → Prop)
+  (hE : M'.E = M.E)
+  (hends : ∀ e, e < M.E → M'.endsOf e = (ν (M.endsOf e).1, ν (M.endsOf e).2))
+  (hcross : ∀ e, e < M.E → M'.crossOf e = M.crossOf e)
+  (hpos : ∀ v, K v → M'.posOf (ν v) = M.posOf v)
+  (hscale : M'.scale = M.scale)
+  (hr : ∀ e, e < M.E → K (M.endsOf e).1 ∧ K (M.endsOf e).2)
+  (hinj : ∀ a b, K a → K b → ν a = ν b → a = b)
+
+include hE hends hr hinj in
+theorem renumber_incident (v : Nat) (hv : K v) : incident M' (ν v) = incident M v := by
+  unfold incident
+  rw [hE]
+  apply List.filter_congr
+  intro e he
+  have heE : e < M.E := List.mem_range.mp he
+  obtain ⟨h1, h2⟩ := hr e heE
+  rw [hends e heE]
+  simp only
+  have e1 : (ν (M.endsOf e).1 == ν v) = ((M.endsOf e).1 == v) := by
+    by_cases h : (M.endsOf e).1 = v
+    · simp [h]
+    · have : ν (M.endsOf e).1 ≠ ν v := fun hh => h (hinj _ _ h1 hv hh)
+      simp [h, this]
+  have e2 : (ν (M.endsOf e).2 == ν v) = ((M.endsOf e).2 == v) := by
+    by_cases h : (M.endsOf e).2 = v
+    · simp [h]
+    · have : ν (M.endsOf e).2 ≠ ν v := fun hh => h (hinj _ _ h2 hv hh)
+      simp [h, this]
+  rw [e1, e2]
+
+include hends hcross hpos hscale hr hinj in
+theorem renumber_outVec (v : Nat) (hv : K v) (e : Nat) (he : e < M.E) : outVec M' (ν v) e = outVec M v e := by
+  obtain ⟨h1, h2⟩ := hr e he
+  have hev : M'.evec e = M.evec e := by
+    unfold Lat.evec
+    rw [hends e he, hcross e he, hscale]
+    simp only
+    rw [hpos _ h1, hpos _ h2]
+  unfold outVec
+  rw [hev, hends e he]
+  simp only
+  have e1 : (ν (M.endsOf e).1 == ν v) = ((M.endsOf e).1 == v) := by
+    by_cases h : (M.endsOf e).1 = v
+    · simp [h]
+    · have : ν (M.endsOf e).1 ≠ ν v := fun hh => h (hinj _ _ h1 hv hh)
+      simp [h, this]
+  rw [e1]
+
+include hE hends hcross hpos hscale hr hinj in
+theorem renumber_rotAt (v : Nat) (hv : K v) : rotAt M' (ν v) = rotAt M v := by
+  unfold rotAt
+  rw [renumber_incident M M' ν K hE hends hr hinj v hv]
+  apply foldl_insertDesc_congr
+  intro x hx
+  rcases hx with hx | hx
+  · have hxE : x < M.E := ((mem_incident M v x).mp hx).1
+    exact renumber_outVec M M' ν K hends hcross hpos hscale hr hinj v hv x hxE
+  · simp at hx
+
+include hE hends hcross hpos hscale hr hinj in
+/-- the face walk takes the same step (same next edge, same direction) in the renumbered lattice -/
+theorem renumber_nextD (hM : M.noSelfLoop = true) (d : Dart) (hd : d.1 < M.E) :
+    nextD M' (rotAt M') d = nextD M (rotAt M) d := by
+  have hwf := rotAt_wf M hM
+  obtain ⟨h1, h2⟩ := hr d.1 hd
+  have hhead : M'.head d = ν (M.head d) := by
+    unfold Lat.head; rw [hends d.1 hd]; split <;> rfl
+  have hKh : K (M.head d) := by unfold Lat.head; split <;> assumption
+  rw [nextD_eq_succIn, nextD_eq_succIn, hhead, renumber_rotAt M M' ν K hE hends hcross hpos hscale hr hinj _ hKh]
+  have hnext : succIn (rotAt M (M.head d)) d.1 < M.E := by
+    have := nextD_edge_mem hwf hd
+    rw [nextD_eq_succIn] at this
+    exact ((hwf.mem_iff _ _).mp this).1
+  apply Prod.ext
+  · rfl
+  · simp only
+    rw [hends _ hnext]
+    simp only
+    obtain ⟨g1, _⟩ := hr _ hnext
+    by_cases h : (M.endsOf (succIn (rotAt M (M.head d)) d.1)).1 = M.head d
+    · simp [h]
+    · have : ν (M.endsOf (succIn (rotAt M (M.head d)) d.1)).1 ≠ ν (M.head d) := fun hh => h (hinj _ _ g1 hKh hh)
+      simp [h, this]
+
+include hE hends hcross hpos hscale hr hinj in
+/-- **every face walk is the same list of (edge, direction) pairs after the vertices are renumbered** -/
+theorem renumber_walkFrom (hM : M.noSelfLoop = true) (d : Dart) (hd : d.1 < M.E) :
+    walkFrom M' (rotAt M') d = walkFrom M (rotAt M) d := by
+  have hwf := rotAt_wf M hM
+  unfold walkFrom trace
+  rw [hE]
+  have hiter : ∀ k, (nextD M' (rotAt M'))^[k] d = (nextD M (rotAt M))^[k] d := by
+    intro k
+    induction k with
+    | zero => rfl
+    | succ k ih =>
+      rw [iterate_succ_apply', iterate_succ_apply', ih]
+      exact renumber_nextD M M' ν K hE hends hcross hpos hscale hr hinj hM _ (_root_.iter_valid M (rotAt M) hwf hd k)
+  rw [traceLoop_congr (nextD M (rotAt M)) (nextD M' (rotAt M')) d _ d [d] hiter]
+
+end Renumber
+
+/-! ### remove_vertices = delete the edges touching the removed vertices, then renumber the kept vertices -/
+
+theorem newIndex_eq_rank (removed : Nat → Bool) (v : Nat) (hk : removed v = false) :
+    newIndex removed v = rank (fun u => !removed u) v := by
+  have hcount := kept_add_removed removed v
+  have hcum : cumRemoved removed v = ((List.range v).filter removed).length := by
+    unfold cumRemoved
+    rw [List.range_succ, List.filter_append]
+    simp [hk]
+  have hrank : rank (fun u => !removed u) v = (keptList removed v).length := by
+    unfold rank rankFrom keptList
+    rw [List.range_eq_range']
+  unfold newIndex
+  rw [hcum, hrank]; omega
+
+theorem map_getD_lt {α β : Type} (f : α → β) (l : List α) (i : Nat) (hi : i < l.length) (d : α) (d' : β) :
+    (l.map f).getD i d' = f (l.getD i d) := by
+  rw [List.getD_eq_getElem?_getD, List.getD_eq_getElem?_getD, List.getElem?_map, List.getElem?_eq_getElem hi]
+  simp
+
+/-- **C12 (removing vertices keeps the untouched plaquettes)**: trace a face of `L` from a dart `d`; if none of its edges
+    touches a removed vertex, tracing from the renamed dart in `remove_vertices(L, idx)` — edges touching removed vertices
+    deleted, surviving edges and vertices renumbered in order — gives the same face, edge for edge under the new edge
+    numbers and with the same directions. -/
+theorem face_in_removeVertices (L : Lat) (idx : List Nat) (hL : L.noSelfLoop = true)
+    (hrL : ∀ e ∈ L.edges, e.1 < L.nV ∧ e.2 < L.nV)
+    (hnz : ∀ v, ∀ e ∈ incident L v, outVec L v e ≠ (0, 0)) (d : Dart) (hd : d.1 < L.E)
+    (hk : ∀ y ∈ walkFrom L (rotAt L) d, edgeKept L (fun v => idx.contains v) y.1 = true) :
+    walkFrom (removeVertices L idx) (rotAt (removeVertices L idx)) (renameDart (edgeKept L (fun v => idx.contains v)) d)
+      = (walkFrom L (rotAt L) d).map (renameDart (edgeKept L (fun v => idx.contains v))) := by
+  set removed : Nat → Bool := fun v => idx.contains v with hrem
+  set keepE := edgeKept L removed with hkeepE
+  set M := thin L keepE with hM
+  have hMloop : M.noSelfLoop = true := thin_noSelfLoop L keepE hL
+  rw [← face_in_thinned L keepE hL hnz d hd hk]
+  have hwf := rotAt_wf L hL
+  have hk0 : keepE d.1 = true := hk d ((_root_.mem_walkFrom L (rotAt L) hwf hd d).mpr ⟨0, rfl⟩)
+  have hd' : (renameDart keepE d).1 < M.E := by rw [hM, thin_E]; exact rank_lt keepE hd hk0
+  -- the ends of an edge of the thinned lattice are kept vertices in range
+  have hends_mem : ∀ e, e < M.E → M.endsOf e ∈ M.edges := by
+    intro e he
+    unfold Lat.endsOf
+    have he' : e < M.edges.length := he
+    rw [List.getD_eq_getElem?_getD, List.getElem?_eq_getElem he']
+    exact List.getElem_mem he'
+  have hr : ∀ e, e < M.E → ((M.endsOf e).1 < L.nV ∧ removed (M.endsOf e).1 = false) ∧ ((M.endsOf e).2 < L.nV ∧ removed (M.endsOf e).2 = false) := by
+    intro e he
+    have hm := hends_mem e he
+    obtain ⟨i, hi, hki⟩ := (mem_filterIdx keepE L.edges _).mp hm
+    have hmemL : M.endsOf e ∈ L.edges := List.mem_of_getElem? hi
+    have hLi : L.endsOf i = M.endsOf e := by
+      unfold Lat.endsOf; rw [List.getD_eq_getElem?_getD, hi]; rfl
+    have hke : edgeKept L removed i = true := hki
+    unfold edgeKept at hke
+    rw [hLi] at hke
+    simp only [Bool.and_eq_true, Bool.not_eq_true'] at hke
+    exact ⟨⟨(hrL _ hmemL).1, hke.1⟩, ⟨(hrL _ hmemL).2, hke.2⟩⟩
+  apply renumber_walkFrom M (removeVertices L idx) (newIndex removed) (fun v => v < L.nV ∧ removed v = false)
+  · -- same number of edges
+    show ((filterIdx keepE L.edges).map _).length = (filterIdx keepE L.edges).length
+    exact List.length_map _
+  · intro e he
+    show (((filterIdx keepE L.edges).map fun e => (newIndex removed e.1, newIndex removed e.2))).getD e (0, 0) = _
+    have he2 : e < (filterIdx keepE L.edges).length := he
+    rw [map_getD_lt (fun e : Nat × Nat => (newIndex removed e.1, newIndex removed e.2)) (filterIdx keepE L.edges) e he2 (0, 0) (0, 0)]
+    rfl
+  · intro e _; rfl
+  · intro v hv
+    show (filterIdx (fun v => !removed v) L.pos).getD (newIndex removed v) (0, 0) = L.pos.getD v (0, 0)
+    rw [newIndex_eq_rank removed v hv.2]
+    exact filterIdx_getD (fun u => !removed u) L.pos (0, 0) v (by simp [hv.2])
+  · rfl
+  · exact hr
+  · intro a b ha hb h
+    rw [newIndex_eq_rank removed a ha.2, newIndex_eq_rank removed b hb.2] at h
+    exact rank_inj (fun u => !removed u) (by simp [ha.2]) (by simp [hb.2]) h
+  · exact hMloop
+  · exact hd'
+
+end RemoveVertices
+
 end C12
